@@ -52,6 +52,7 @@ type verifyCtx struct {
 	discipline    *Discipline
 	entryLocks    map[string]lockMode
 	proto         *protoRun
+	boxes         map[string]PtrV // closures: captured variable -> its box
 	loops         map[*ssa.BasicBlock]*loopInfo
 	qn            int
 	hooksAfter    map[ssa.Instruction][]*AtHook
@@ -60,7 +61,7 @@ type verifyCtx struct {
 
 func (vc *verifyCtx) specEnv(st *State) *SpecEnv {
 	e := st.e
-	env := &SpecEnv{e: e, st: st, old: vc.entry, vars: map[string]Value{}, oldVar: vc.params, pkg: pkgOf(vc.fn), qn: &e.qn}
+	env := &SpecEnv{e: e, st: st, old: vc.entry, vars: map[string]Value{}, oldVar: vc.params, pkg: pkgOf(vc.fn), qn: &e.qn, boxes: vc.boxes}
 	for k, v := range vc.params {
 		env.vars[k] = v
 	}
@@ -1333,6 +1334,10 @@ func (e *Engine) verifyCase(fn *ssa.Function, c *Contract, cs *Case, res *FuncRe
 		p := PtrV{Ref: ref, RootT: et, Elem: et}
 		bind = append(bind, p)
 		vc.params[fv.Name()] = wrapTyped(e.load(st, p, et), et)
+		if vc.boxes == nil {
+			vc.boxes = map[string]PtrV{}
+		}
+		vc.boxes[fv.Name()] = p
 	}
 	// distinct captured boxes of the same type
 	for i := range bind {
